@@ -4,6 +4,7 @@ C02 — JSON text parser accepts exactly the documented language, with standard 
 index/slice/unwrap/overflow-checked subtraction an explicit panic outcome guarded as Rust guards it).
 -/
 import JsonbModel.Proofs.JsonParserTotal
+import JsonbModel.Proofs.StrictSubset
 import JsonbModel.Proofs.JsonParserFuel
 import JsonbModel.Proofs.JsonParserExact
 import JsonbModel.Proofs.JsonParserRender
@@ -35,5 +36,22 @@ theorem C02_complete_compact (v : JV) (hv : rendOk v = true) :
 
 example : rendOk (.obj [([0x62], .num (.int (-1))), ([0x61], .arr [.str [0x22, 0x01]]), ([0x62], .null)]) = true := by
   decide
+
+/-- **every RFC 8259 document is accepted and yields the value it denotes** — for every byte
+string, not only one renderer's output: whatever the independent strict RFC 8259 reader of the
+specification layer accepts (white space anywhere RFC allows it, every escape incl. surrogate
+pairs, the full number grammar, nesting, duplicate and unsorted keys) the crate's parser accepts
+with the same value: same strings byte for byte, integers exact in u64 / i64, every other number
+the correctly rounded double (±inf beyond the range), last duplicate key wins -/
+theorem C02_rfc8259_accepted {t : Bytes} {v : JV} (h : Strict.parse t = some v) : parseValue t = .ok v :=
+  strict_subset h
+
+/-- every byte string is either accepted or rejected with an error (no panic, no fuel) -/
+theorem C02_accepts_or_rejects (t : Bytes) : (∃ v, parseValue t = .ok v) ∨ (∃ e, parseValue t = .err e) :=
+  relaxed_rejects_or_accepts t
+
+/-- what the crate rejects, RFC 8259 rejects -/
+theorem C02_rejected_is_not_rfc8259 {t : Bytes} {e : String} (h : parseValue t = .err e) : Strict.parse t = none :=
+  strict_none_of_err h
 
 end Jsonb.Props
